@@ -28,6 +28,8 @@ def seeded():
             res = "obsolete: " + str(m["obsolete"])[:120]
         else:
             res = ", ".join("%s: %s" % (p, "caught" if r.get("caught") else "MISSED") for p, r in sorted(runs.items())) or "not run"
+        if m.get("outside_property"):
+            res += " - outside the property: " + str(m["outside_property"])[:160]
         fr = m.get("first_run")
         if fr and not m.get("obsolete"):
             res += " (as the checks stood: %s)" % ("caught" if fr.get("caught") else "missed" if fr.get("caught") is False else "not run - " + fr.get("note", "")[:60])
